@@ -36,6 +36,7 @@ class SpyControl:
         self.calls = []          # (n, session, op, path-str, t)
         self.n = 0
         self.delay = None        # callable(op, path, n) -> seconds | None
+        self.gate = None         # async callable(spy, op, path, n) awaited before the call goes on (or fails)
         self.fail = None         # callable(op, path, n, session) -> exception | None
         self.open_handles = []   # [id(file), path, mode, session]
         self.instances = []
@@ -67,6 +68,8 @@ class SpyControl:
             d = self.delay(op, path, n)
             if d:
                 await asyncio.sleep(d)
+        if self.gate is not None:
+            await self.gate(spy, op, path, n)    # holds the call until the harness lets it go (alignment with another event)
         if self.fail is not None:
             exc = self.fail(op, path, n, sess)
             if exc is not None:
